@@ -220,6 +220,18 @@ impl KMap {
         PtrMut::ptr_eq(&self.data, &other.data)
     }
 
+    /// Returns true if the maps share the same meta map
+    ///
+    /// Maps made with `map.with_meta` can share their data with other maps while having a
+    /// different meta map (and the other way around), so this is what identifies a step in a
+    /// `@base` chain.
+    pub fn is_same_meta_instance(&self, other: &Self) -> bool {
+        match (&self.meta, &other.meta) {
+            (Some(a), Some(b)) => PtrMut::ptr_eq(a, b),
+            _ => false,
+        }
+    }
+
     /// If present, returns the @type meta value as a [KString], recursively going up the @base chain.
     pub fn meta_type(&self) -> Option<KString> {
         use KValue::*;
@@ -235,7 +247,7 @@ impl KMap {
                 None => match map.get_meta_value(&MetaKey::Base) {
                     Some(Map(base)) => {
                         visited.push(map);
-                        if visited.iter().any(|v| v.is_same_instance(&base)) {
+                        if visited.iter().any(|v| v.is_same_meta_instance(&base)) {
                             return None;
                         }
                         map = base;
